@@ -856,3 +856,55 @@ func init() {
 	reg("C11.deep", checkC11Deep)
 	reg("C11.gone", checkC11Gone)
 }
+
+// ---- engine globals next to the includer's variables --------------------------------------------------------
+
+type C11GlobalCase struct {
+	Which int `json:"which"`
+}
+
+var c11GlobalSets = []struct {
+	main, want string
+}{
+	{"{{ g }}{% include 'inc' %}", "ctx[ctx|G2]"},
+	{"{% include 'inc' with {'g': 'w'} %}{{ g }}", "[w|G2]ctx"},
+	{"{% include 'inc' with {'x': 1} only %}", "[global|G2]"},
+	{"{% set g = 'set' %}{% include 'inc' %}", "[set|G2]"},
+	{"{% for g in ['l1', 'l2'] %}{% include 'inc' %}{% endfor %}", "[l1|G2][l2|G2]"},
+	{"{% set g2 = 's2' %}{% include 'inc' %}|{% include 'inc' only %}", "[ctx|s2]|[global|G2]"},
+	{"{% include 'outer' %}", "<[ctx|G2]>"},
+	{"{% include 'outer' with {'g': 'deep'} %}", "<[deep|G2]>"},
+	{"{% for i in [1] %}{% if true %}{% include 'inc' %}{% endif %}{% endfor %}", "[ctx|G2]"},
+	{"{% macro m(g) %}{% include 'inc' %}{% endmacro %}{{ m('arg') }}", "[arg|G2]"},
+	{"{% extends 'layout' %}{% block b %}{% include 'inc' %}{% endblock %}", "L([ctx|G2])ctx"},
+}
+
+// checkC11Global: an included template reads the including template's variables; an engine global
+// of the same name is what it sees only where no such variable exists.
+func checkC11Global(c C11GlobalCase) error {
+	s := c11GlobalSets[c.Which%len(c11GlobalSets)]
+	tm := map[string]string{"main": s.main, "inc": "[{{ g }}|{{ g2 }}]", "outer": "<{% include 'inc' %}>", "layout": "L({% block b %}{% endblock %}){{ g }}"}
+	e := newEngine(tm)
+	e.AddGlobal("g", "global")
+	e.AddGlobal("g2", "G2")
+	r := render(e, "main", map[string]interface{}{"g": "ctx"})
+	if r.Failed() || r.Out != s.want {
+		return fmt.Errorf("globals g = 'global', g2 = 'G2', context g = 'ctx', included template %s: %s renders %v, want %s", q(tm["inc"]), q(s.main), r, q(s.want))
+	}
+	return nil
+}
+
+func TestC11Globals(t *testing.T) {
+	r := NewRec(t, "C11", "exhaustive: 11 arrangements (plain, with, only, after set, loop variable, nested include, inside if/for, inside a macro, inside a block of a child template) of an include on an engine with two globals, one of which has the name of a variable of the including template; expected text written out; all cases non-trivial")
+	defer r.Flush()
+	r.SetExhaustive()
+	for i := range c11GlobalSets {
+		c := C11GlobalCase{Which: i}
+		r.Case(fmt.Sprint(i), true, c11GlobalSets[i].main)
+		if err := checkC11Global(c); err != nil {
+			r.FailEnum(t, "C11.global", c, err)
+		}
+	}
+}
+
+func init() { reg("C11.global", checkC11Global) }
